@@ -1285,6 +1285,11 @@ class H2Stream:
             )
         ]
 
+        # An empty header list (valid for trailers) still needs one frame to
+        # carry END_HEADERS.
+        if not header_blocks:
+            header_blocks = [b'']
+
         frames = []
         first_frame.data = header_blocks[0]
         frames.append(first_frame)
